@@ -385,12 +385,13 @@ pub fn gen_world(seed: u64, t: u64, steps: usize, profile: &str, out: &mut impl 
     NEXT_CLONE_TOK.with(|c| c.set(1_000_000_000 + t * 100_000));
     let mut rng = Rng::seeded(seed, t);
     let e0 = lru_mem::entry_size(&VKey::probe(0), &VVal { tok: 0, tag: 0, heap: 0 });
-    let hk = rng.below(5) as u8;
+    let churn = profile == "churn";
+    let hk = if churn { rng.pick(&[0u8, 0, 3, 4, 2]) } else { rng.below(5) as u8 };
     let big = profile == "big" || (profile == "mix" && t % 7 == 3);
-    let universe: u32 = if big { 200 } else if t % 3 == 0 { 40 } else { 6 };
-    let max0: usize = if big { match rng.below(3) { 0 => usize::MAX, 1 => e0 * 150, _ => e0 * 40 + 13 } } else {
+    let universe: u32 = if churn { 400 } else if big { 200 } else if t % 3 == 0 { 40 } else { 6 };
+    let max0: usize = if churn { if rng.below(3) == 0 { e0 * 120 } else { usize::MAX } } else if big { match rng.below(3) { 0 => usize::MAX, 1 => e0 * 150, _ => e0 * 40 + 13 } } else {
         match rng.below(8) { 0 => 0, 1 => e0 * 3, 2 => e0 * 4 + 37, 3 | 4 => usize::MAX, _ => e0 * (1 + rng.below(8) as usize) + rng.below(50) as usize } };
-    let cap0 = rng.pick(&[0usize, 0, 1, 3, 7, 28, 100]);
+    let cap0 = if churn { rng.pick(&[28usize, 56, 100, 14, 112]) } else { rng.pick(&[0usize, 0, 1, 3, 7, 28, 100]) };
     let mut w = World { slots: vec![None, None, None], universe, cfg: (max0, cap0, hk), log: Vec::new() };
     new_cache(&mut w, 0, max0, cap0, hk, out);
     let mut tok: u64 = t * 1_000_000;
@@ -413,6 +414,33 @@ pub fn gen_world(seed: u64, t: u64, steps: usize, profile: &str, out: &mut impl 
             3 if maxs >= e0 + kh && maxs < 1 << 40 => vh = maxs - e0 - kh + 1,
             4 | 5 if maxs == usize::MAX && rng.below(2) == 0 => vh = (1usize << 63) - e0 - kh - rng.below(3) as usize,
             _ => {}
+        }
+        if churn {
+            // tombstone-heavy churn around a full table: fill with consecutive keys, remove runs from the middle of dense
+            // regions, re-insert, and ask for capacity in between
+            let c = w.slots[0].as_ref().unwrap();
+            let (cap, clen) = (c.capacity(), c.len());
+            let keys: Vec<u32> = c.keys().map(|k| k.id.0).collect();
+            let next_id = (w.log.len() as u32 * 7 + 1) % universe;
+            let op = match rng.below(100) {
+                _ if clen < cap && w.log.len() < cap0 + 8 => { tok += 2; Op::Insert((w.log.len() as u32) % universe, tok - 1, 0, tok, tok, 0) }
+                0..=29 => { tok += 2; Op::Insert(next_id, tok - 1, 0, tok, tok, rng.pick(&[0usize, 0, 8])) }
+                30..=54 if !keys.is_empty() => Op::Remove(keys[rng.below(keys.len() as u64) as usize]),
+                55..=62 if !keys.is_empty() => { let k0 = keys[rng.below(keys.len() as u64) as usize]; Op::Retain(!(0x1Fu64 << (k0 % 59))) }
+                63..=66 => Op::Reserve(rng.pick(&[1usize, 2, 8, 30, 68])),
+                67..=69 => Op::TryReserve(rng.pick(&[1usize, 4, 20, 64]), false),
+                70..=72 => Op::ShrinkTo(rng.pick(&[0usize, 26, 27, 50, 100])),
+                73 => Op::ShrinkToFit,
+                74..=77 => Op::RemoveLru,
+                78..=80 if !keys.is_empty() => Op::Get(keys[rng.below(keys.len() as u64) as usize]),
+                81..=83 => { tok += 2; Op::TryInsert(next_id, tok - 1, 0, tok, tok, 0) }
+                84 => Op::Capacity,
+                85..=86 if !keys.is_empty() => { tok += 1; Op::Mutate(keys[rng.below(keys.len() as u64) as usize], tok, rng.pick(&[0usize, 8, 40])) }
+                87 => Op::Iter(0, "FBFB".into()),
+                _ => { tok += 2; Op::Insert(next_id, tok - 1, 0, tok, tok, 0) }
+            };
+            alive &= do_step(&mut w, 0, &op, out);
+            continue;
         }
         let r = rng.below(if big { 60 } else { 100 });
         let op = match r {
